@@ -554,6 +554,10 @@ def _run(scn, w, res):
                             "resend() transmitted %s pid %d, the failed payload was %s pid %d" % (hx(c["data"])[:16], c["pid"], hx(pay)[:16], pid))
             check_call("resend", [pay], ret, t0, c0, a0, 0, op["so"], False)
     # ---- ACK payload order
+    # (M4 / M6: a packet the receiver takes for a repeat of the previous one - same 2-bit PID and same CRC, which also happens to a *new*
+    # payload with the same bytes four uploads later when nothing in between got through - is answered with the same ACK payload
+    # again: consecutive equal ACK payloads count once)
+    got_ackpl = [g for k_, g in enumerate(got_ackpl) if k_ == 0 or g != got_ackpl[k_ - 1]]
     it = iter(loaded)
     for g in got_ackpl:
         for x in it:
